@@ -136,7 +136,8 @@ func C19(c *run.Ctx) int {
 		id := fmt.Sprintf("prog-%d", i-len(corpus))
 		return id, c19Eval(c, id, prog, "", cases.FeatKeys(prog.Feat), r, nEdit)
 	})
-	return c.Finish("generated programs and corpus sources, each subjected to sequences of meaning-neutral edits: blankspace / line-break variants (LF, CRLF, VT, FF, NEL, LS, PS), line comments and nested block comments with hostile bodies inserted at token boundaries, blankspace removal next to brackets, redundant parentheses around expression nodes, trailing commas in argument / parameter / attribute / template lists, consistent renaming; "+
+	c19ShadowPairs(c)
+	return c.Finish("generated programs and corpus sources, each subjected to sequences of meaning-neutral edits: blankspace / line-break variants (LF, CRLF, VT, FF, NEL, LS, PS), line comments and nested block comments with hostile bodies inserted at token boundaries, blankspace removal next to brackets, redundant parentheses around expression nodes, trailing commas in argument / parameter / attribute / template lists, consistent renaming; blankspace removal between a template-closing > and a following = or > (>= / >> adjacencies); plus pairs of programs differing in whether an inner-scope local reuses the name of an outer local that is used again afterwards (6 outer kinds x 7 inner kinds x 5 block forms); "+
 		"oracle: accept iff accept, identical canonical IR dump (names blanked), byte-identical non-debug SPIR-V, identical HLSL / MSL / GLSL text (after renames only IR and SPIR-V are compared); "+
 		"distinct = distinct (feature set | corpus shader) x edit kinds applied; non-trivial = source accepted and at least one edit changed the text",
 		[]string{"the independent mini-lexer only decides where token boundaries are; edits never touch the inside of a token", "blankspace and line breaks are the full WGSL sets (space, tab, LF, VT, FF, CR, NEL, LRM, RLM, LS, PS)"})
